@@ -63,9 +63,10 @@ def schedule_task():
             w = st.sym("w", (2, 2), torch.bool)
             prev = {"a": st.sym("S_a", (2,)), "yx": WeightedTensor(st.sym("S_yx", (2, 2)), w)}
             fresh = {"a": st.sym("s_a", (2,)), "yx": WeightedTensor(st.sym("s_yx", (2, 2)), w)}
-            h = _Host()
+            # the real algorithm object (real constructors), then an arbitrary iteration of an arbitrary schedule
+            h = algorithm_factory(AlgorithmSettings("mcmc_saem", n_iter=10, seed=0, progress_bar=False))
             h.current_iteration = st.SymScalar(k.sym[()], torch.int64)
-            h.algo_parameters = {"n_burn_in_iter": st.SymScalar(b.sym[()], torch.int64), "burn_in_step_power": st.SymScalar(p.sym[()], torch.float32)}
+            h.algo_parameters = dict(h.algo_parameters, n_burn_in_iter=st.SymScalar(b.sym[()], torch.int64), burn_in_step_power=st.SymScalar(p.sym[()], torch.float32))
             h.sufficient_statistics = dict(prev)
             model = _ModelStub(fresh)
             hold.update(k=k, b=b, p=p, prev=prev, fresh=fresh, h=h, model=model)
@@ -82,30 +83,8 @@ def schedule_task():
 
             def rp(m_):
                 kv, bv, pv = int(round(model_value(m_, kt))), int(round(model_value(m_, bt))), float(model_value(m_, pt))
-                return f"""
-from leaspy.algo.fit.mcmc_saem import TensorMcmcSaemAlgorithm
-from leaspy.algo.algo_with_samplers import AlgorithmWithSamplersMixin
-class H:
-    _maximization_step = TensorMcmcSaemAlgorithm._maximization_step
-    _is_burn_in = AlgorithmWithSamplersMixin._is_burn_in
-class M:
-    def __init__(s): s.calls = []
-    def compute_sufficient_statistics(s, state): return {{'a': torch.tensor([3., 5.]), 'b': torch.tensor([[1., 2.]])}}
-    def update_parameters(s, state, stats, *, burn_in): s.calls.append((stats, burn_in))
-bad = []
-for k, b, p in [({kv}, {bv}, {pv}), (1, 0, 0.75), (2, 0, 0.75), (3, 1, 1.0), (5, 2, 0.6), (2, 5, 0.9), (7, 6, 0.9), (8, 6, 0.9)]:
-    h = H(); h.current_iteration = k; h.algo_parameters = {{'n_burn_in_iter': b, 'burn_in_step_power': p}}
-    prev = {{'a': torch.tensor([10., 20.]), 'b': torch.tensor([[7., 9.]])}}; h.sufficient_statistics = dict(prev)
-    m = M(); h._maximization_step(m, None)
-    fresh = m.compute_sufficient_statistics(None)
-    if k <= b + 1: exp = fresh
-    else:
-        e = float(k - b) ** (-p); exp = {{n: prev[n] * (1 - e) + e * fresh[n] for n in prev}}
-    got = h.sufficient_statistics
-    if set(got) != set(exp) or any(not torch.allclose(got[n], exp[n], rtol=1e-6) for n in exp): bad.append(('stats', k, b, p, got, exp))
-    if len(m.calls) != 1 or m.calls[0][0] is not got or m.calls[0][1] != (k <= b): bad.append(('update call', k, b, p, [(c[1]) for c in m.calls]))
-print(bad); sys.exit(1 if bad else 0)
-"""
+                cfgs = ([(kv, bv, pv)] if 1 <= kv <= 40 and 0 <= bv else []) + [(6, b_, q_) for b_ in range(7) for q_ in (0.75, 1.0)]
+                return _runs_replay(cfgs, n_runs=1)
 
             got = h.sufficient_statistics
             rec.obligations += 1
@@ -143,6 +122,131 @@ print(bad); sys.exit(1 if bad else 0)
             if rec.paths == 1:
                 rec.twin("ctx")
             rec.sample({"path_decisions": [d[1] for d in c.decisions], "k": "symbolic", "b": "symbolic", "power": "symbolic in (0.5,1]"})
+        return rec.result()
+
+    return guarded(PROP, task, body)
+
+
+def _tiny_fit_setup():
+    """(model, dataset) for a 4-subject, 2-feature logistic fit: the real run loop needs a real state / samplers"""
+    import pandas as pd
+
+    from leaspy.io.data import Data, Dataset
+    from leaspy.models import LogisticModel
+
+    rng = np.random.default_rng(0)
+    rows = [(f"s{i}", 60.0 + 2 * j + i, float(np.clip(0.2 + 0.06 * j + 0.01 * i + 0.01 * rng.standard_normal(), 0.01, 0.99)), float(np.clip(0.3 + 0.04 * j + 0.01 * rng.standard_normal(), 0.01, 0.99))) for i in range(4) for j in range(3)]
+    data = Data.from_dataframe(pd.DataFrame(rows, columns=["ID", "TIME", "a", "b"]))
+    dataset = Dataset(data)
+    model = LogisticModel("logistic", source_dimension=1)
+    model.initialize(dataset)
+    return model, dataset
+
+
+def _runs_replay(cfgs, n_runs):
+    """real TensorMcmcSaemAlgorithm._run (real loop, samplers, maximization step) on a real tiny model whose statistics are replaced by
+    recorded random tensors; the same algorithm object is run `n_runs` times; every iteration is compared with the documented schedule"""
+    return f"""
+import numpy as np, pandas as pd
+from leaspy.algo import AlgorithmSettings, algorithm_factory
+from leaspy.io.data import Data, Dataset
+from leaspy.models import LogisticModel
+rng = np.random.default_rng(0)
+rows = [(f"s{{i}}", 60.0 + 2 * j + i, float(np.clip(0.2 + 0.06 * j + 0.01 * i, 0.01, 0.99)), float(np.clip(0.3 + 0.04 * j, 0.01, 0.99))) for i in range(4) for j in range(3)]
+dataset = Dataset(Data.from_dataframe(pd.DataFrame(rows, columns=["ID", "TIME", "a", "b"])))
+bad = []
+for K, B, P in {cfgs!r}:
+    algo = algorithm_factory(AlgorithmSettings("mcmc_saem", n_iter=K, n_burn_in_iter=B, burn_in_step_power=P, seed=0, progress_bar=False))
+    for run in range({n_runs}):
+        model = LogisticModel("logistic", source_dimension=1); model.initialize(dataset)
+        log = []
+        def css(state):
+            f = {{"a": torch.tensor(rng.standard_normal(2)), "yx": torch.tensor(rng.standard_normal((2, 2)))}}; log.append([f]); return f
+        def upd(state, stats, *, burn_in):
+            log[-1] += [algo.current_iteration, {{k: v.clone() for k, v in stats.items()}}, burn_in]
+        model.compute_sufficient_statistics = css; model.update_parameters = upd
+        algo._run(model, dataset)
+        if [e[1] for e in log if len(e) == 4] != list(range(1, K + 1)): bad.append(("iterations", K, B, run, [e[1:2] for e in log])); continue
+        S = None
+        for fresh, k, got, flag in log:
+            if k <= B + 1: exp = fresh
+            else:
+                e = float(k - B) ** (-P); exp = {{n: S[n] * (1 - e) + e * fresh[n] for n in fresh}}
+            if any(not torch.allclose(got[n], exp[n], rtol=1e-9, atol=1e-12) for n in exp): bad.append(("S_k", dict(n_iter=K, n_burn_in=B, power=P, run=run, k=k), got, exp)); break
+            if flag != (k <= B): bad.append(("burn_in flag", K, B, run, k, flag)); break
+            S = exp
+print(bad[:3]); sys.exit(1 if bad else 0)
+"""
+
+
+def runs_task(K, b, n_runs=2):
+    """Bounded unrolling of the real run loop: `n_runs` consecutive runs of ONE algorithm object (real _run / _iteration /
+    _maximization_step, real samplers on a real tiny model), K iterations each, with symbolic step power and fresh symbolic
+    statistics at every iteration: the statistics handed to the model at iteration k of every run are S_k of the schedule."""
+    task = f"runs[n_iter={K},n_burn_in={b},runs={n_runs}]"
+
+    def body():
+        import contextlib
+        import io
+
+        rec = Recorder(PROP, task, [TensorMcmcSaemAlgorithm._run, TensorMcmcSaemAlgorithm._iteration, TensorMcmcSaemAlgorithm._maximization_step, TensorMcmcSaemAlgorithm._initialize_algo, AlgorithmWithSamplersMixin._is_burn_in])
+        rec.stubs += ["model.compute_sufficient_statistics -> fresh symbols per iteration", "model.update_parameters -> recorder"]
+        st.new_context("R")
+        T.ctx().congruence = True
+        p = st.sym("power", ())
+        pt = p.sym[()]
+        T.assume(z3.And(pt > T.real_val(0.5), pt <= 1))
+        model, dataset = _tiny_fit_setup()
+        algo = algorithm_factory(AlgorithmSettings("mcmc_saem", n_iter=K, n_burn_in_iter=b, seed=0, progress_bar=False))
+        algo.algo_parameters["burn_in_step_power"] = st.SymScalar(pt, torch.float32)
+
+        def rp(m_):
+            return _runs_replay([(K, b, float(model_value(m_, pt))), (K, b, 0.75), (K, b, 1.0)], n_runs)
+
+        for run in range(n_runs):
+            if run:
+                model, _ = _tiny_fit_setup()
+            log = []
+
+            def css(state, run=run, log=log):
+                i = len(log)
+                f = {"a": st.sym(f"s{run}_{i}_a", (2,)), "yx": st.sym(f"s{run}_{i}_yx", (2, 2))}
+                log.append([f])
+                return f
+
+            def upd(state, stats, *, burn_in, log=log):
+                log[-1] += [algo.current_iteration, dict(stats), burn_in]
+
+            model.compute_sufficient_statistics = css
+            model.update_parameters = upd
+            with contextlib.redirect_stdout(io.StringIO()):
+                algo._run(model, dataset)
+            ks = [e[1] for e in log if len(e) == 4]
+            rec.obligations += 1
+            if ks == list(range(1, K + 1)):
+                rec.discharged += 1
+            else:
+                rec.violation_from_script(f"run{run}:iterations", "C05:iterations", rp(_One()), f"maximization steps at iterations {ks} instead of 1..{K}")
+                continue
+            S = None
+            for fresh, k, got, flag in log:
+                e = T.t_pow(T.real_val(k - b), T.mk_neg(pt)) if k > b + 1 else None
+                for key in fresh:
+                    fv = st.to_terms(fresh[key]).reshape(-1)
+                    gv = st.to_terms(got[key]).reshape(-1)
+                    ev = fv if e is None else np.array([S[key][i] * (1 - e) + e * fv[i] for i in range(len(fv))], dtype=object)
+                    for i in range(len(fv)):
+                        rec.prove(f"run{run}:S_{k}[{key}][{i}]", gv[i] == ev[i], replay=rp, key="C05:schedule-over-runs", timeout_ms=40000,
+                                  what=f"run {run + 1} of the same algorithm object, iteration {k}: the statistics used for maximization are not S_k of the documented schedule")
+                S = {key: (st.to_terms(fresh[key]).reshape(-1) if e is None else np.array([S[key][i] * (1 - e) + e * st.to_terms(fresh[key]).reshape(-1)[i] for i in range(st.to_terms(fresh[key]).size)], dtype=object)) for key in fresh}
+                rec.obligations += 1
+                if bool(flag) == (k <= b):
+                    rec.discharged += 1
+                else:
+                    rec.violation_from_script(f"run{run}:flag[{k}]", "C05:burn-in-flag", rp(_One()), f"burn_in flag {flag} at iteration {k} with n_burn_in {b}")
+        rec.twin("ctx")
+        rec.sample({"n_iter": K, "n_burn_in": b, "runs_of_one_object": n_runs, "power": "symbolic in (0.5,1]", "statistics": "fresh symbols per iteration"})
+        rec.end_path()
         return rec.result()
 
     return guarded(PROP, task, body)
@@ -218,4 +322,9 @@ def crosshair_burn_in_task():
 
 
 def tasks(tier, seed=0):
-    return [("schedule_task", {}), ("power_guard_task", {}), ("crosshair_burn_in_task", {})]
+    ts = [("schedule_task", {}), ("power_guard_task", {}), ("crosshair_burn_in_task", {})]
+    cfgs = [(4, 0), (4, 1), (4, 2), (4, 4)] if tier == "quick" else [(K, b) for K in (4, 6) for b in range(K + 1)]
+    ts += [("runs_task", dict(K=K, b=b)) for K, b in cfgs]
+    if tier == "thorough":
+        ts.append(("runs_task", dict(K=4, b=1, n_runs=3)))
+    return ts
